@@ -1,2 +1,47 @@
-From BFS Require Import Layers.Call.
-Example placeholder_c05 : prefix_path [47; 97] [47; 98] = Some [47; 97; 47; 98]. Proof. reflexivity. Qed.
+(** C05 — PrefixFS confines every access to its prefix.
+    [pfx] is the stored prefix, which [NewPrefixFS] cleans. *)
+From BFS Require Import Layers.Call Layers.LayerSpec.
+From BFS Require Import Proofs.PrefixFacts.
+
+(** The string-level test of the code is exactly component-wise containment. *)
+Theorem C05_has_path_prefix_iff :
+  forall p pfx, cleaned p -> cleaned pfx -> (has_path_prefix p pfx = true <-> within pfx p).
+Proof. exact has_path_prefix_iff. Qed.
+Print Assumptions C05_has_path_prefix_iff.
+
+(** Whatever name is given: the mapped path is cleaned and within the prefix. *)
+Theorem C05_prefix_path_within :
+  forall pfx name r, cleaned pfx -> prefix_path pfx name = Some r -> within pfx r /\ cleaned r.
+Proof. exact prefix_path_within. Qed.
+Print Assumptions C05_prefix_path_within.
+
+(** Every method, every argument: a call is forwarded only with all its path
+    arguments within the prefix; otherwise it is rejected with EPERM and (by
+    construction of [outcome]) nothing reaches the underlying filesystem. *)
+Theorem C05_calls_confined :
+  forall pfx c, cleaned pfx ->
+  match prefixfs_call pfx c with
+  | Fwd c' => Forall (fun p => within pfx p /\ cleaned p) (path_args c') /\ c_meth c' = c_meth c
+  | Rej e => e = EPERM
+  | Multi => False
+  end.
+Proof. exact prefixfs_calls_confined. Qed.
+Print Assumptions C05_calls_confined.
+
+(** No symlink created through PrefixFS points (lexically) out of the prefix.
+    (Relative prefixes cannot represent absolute targets: known finding K1.) *)
+Theorem C05_symlink_target_within :
+  forall pfx c c', cleaned pfx -> c_meth c = MSymlink ->
+  (is_abs pfx = true \/ is_abs (c_a c) = false) ->
+  prefixfs_call pfx c = Fwd c' -> within pfx (link_effective_target c').
+Proof. exact prefixfs_symlink_target_within. Qed.
+Print Assumptions C05_symlink_target_within.
+
+(** The sibling case that the string-prefix test used to admit. *)
+Example C05_example_sibling_rejected :
+  (* prefix "/r/app", name "../app2/s" *)
+  prefix_path [47;114;47;97;112;112] [46;46;47;97;112;112;50;47;115] = None /\
+  prefix_path [47;114;47;97;112;112] [47;120] = Some [47;114;47;97;112;112;47;120] /\
+  (* Symlink("../../../x", "/a/b") is refused *)
+  prefixfs_call [47;114] (mkCall MSymlink [46;46;47;46;46;47;46;46;47;120] [47;97;47;98] []) = Rej EPERM.
+Proof. vm_compute. repeat split; reflexivity. Qed.
